@@ -270,6 +270,52 @@ def corpora_rules(sl):
             and got[1].compressed_size_in_bytes is None and got[1].uncompressed_size_in_bytes is None)
 
 
+def operation_references(sl):
+    """how a task names its operation: a name from the operations block, an inline definition (with parameters), or a bare operation type;
+    each task's operation is exactly what ITS OWN entry says, whatever other tasks (also of other challenges) defined inline before"""
+    forms = ["declared", "inline-with-params", "bare-type", "inline-named"]
+    n = 3
+    pick = [forms[concrete(fresh_int("operation_form_of_task_%d" % i, 0, len(forms) - 1))] for i in range(n)]
+    across = bool(fresh_bool("third_task_in_a_second_challenge"))
+    seg = [fresh_int("max_num_segments_%d" % i, 1) for i in range(n)]
+
+    def task(i):
+        form = pick[i]
+        if form == "declared":
+            op = "declared-merge"
+        elif form == "inline-with-params":
+            op = {"operation-type": "force-merge", "max-num-segments": seg[i]}
+        elif form == "inline-named":
+            op = {"name": "declared-merge-%d" % i, "operation-type": "force-merge", "max-num-segments": seg[i]}
+        else:
+            op = "force-merge"
+        return {"name": "task-%d" % i, "operation": op}
+
+    spec = {"operations": [{"name": "declared-merge", "operation-type": "force-merge", "max-num-segments": 99}], "indices": [{"name": "idx"}]}
+    if across:
+        spec["challenges"] = [{"name": "c1", "default": True, "schedule": [task(0), task(1)]}, {"name": "c2", "schedule": [task(2)]}]
+    else:
+        spec["schedule"] = [task(0), task(1), task(2)]
+    how, res = _load(spec)
+    core.note("forms", pick)
+    core.trace("how", how)
+    observe("a track using all documented ways to name an operation loads", how == "ret")
+    if how != "ret":
+        return
+    tasks = [t for ch in res.challenges for t in ch.schedule]
+    observe("all tasks present in order", [t.name for t in tasks] == ["task-%d" % i for i in range(n)])
+    for i, t in enumerate(tasks):
+        form, prm = pick[i], t.operation.params
+        observe("task %d runs a force-merge" % i, t.operation.type == "force-merge")
+        if form == "declared":
+            observe("task %d: operation from the operations block with ITS parameters" % i, prm.get("max-num-segments") == 99 and t.operation.name == "declared-merge")
+        elif form in ("inline-with-params", "inline-named"):
+            observe("task %d: inline operation with its own parameters" % i, prm.get("max-num-segments") is seg[i] or prm.get("max-num-segments") == seg[i])
+        else:
+            observe("task %d: a bare operation type is a parameterless operation of that type (no parameters from other tasks' inline definitions)" % i,
+                    "max-num-segments" not in prm)
+
+
 def names_rules(sl):
     """duplicate operation / corpus names; duplicate task names sequentially, across and within parallel elements"""
     kind = sl["kind"]
@@ -514,6 +560,10 @@ HARNESSES = [
             bounds={"corpus": "1 corpus x 2 document sets", "targets": "1..2 indices or data streams; own / corpus-level / implicit default each present or not",
                     "flags": "includes-action-and-meta-data and base-url on corpus and document level", "counts and sizes": "unbounded symbolic integers"},
             doc="document sets: target resolution, inherited defaults, sizes; missing mandatory target rejected"),
+    Harness("operation_references", operation_references, "symbolic", lambda tier: [{}], reads=READS, assumptions=OUT,
+            bounds={"tasks": "3, each naming its operation by block name / inline with parameters / inline with a name / bare type; the third task in the same or in a second challenge",
+                    "parameter values": "unbounded symbolic integers"},
+            doc="operation of every task is what its own entry says (no leakage between inline definitions and bare references)"),
     Harness("names_rules", names_rules, "symbolic",
             lambda tier: [{"kind": k} for k in ("operations", "corpora", "tasks-sequential", "tasks-across-parallel", "tasks-within-parallel", "tasks-default-names")],
             reads=READS, assumptions=OUT, doc="duplicate operation, corpus and task names"),
